@@ -126,6 +126,10 @@ impl Validator {
             }
             if self.has_choice_selection_type(&key) {
                 if let Some((k, ToplevelDefinition::Type(mut tld))) = self.tlds.remove_entry(&key) {
+                    // the selected alternative's type includes its tag
+                    if tld.tag.is_none() {
+                        tld.tag = tld.ty.selected_alternative_tag(&self.tlds);
+                    }
                     if let Err(mut e) = tld.ty.link_choice_selection_type(&self.tlds) {
                         e.contextualize(&key);
                         warnings.push(e.into());
